@@ -40,6 +40,8 @@ TCL == Is("CL") /\ (IF Wild THEN Upd(Ev.c + 1, Cur) ELSE Upd(Ev.c + 1, CLStep(Cu
 TWM == (Is("WM") \/ Is("WJ")) /\ (IF Wild THEN Upd(Ev.c + 1, Cur) ELSE Upd(Ev.c + 1, WMStep(Cur, Ev.type, Ev.n, Ev.m, Ev.err, Ev.tx)))
 TWC == Is("WC") /\ (IF Wild THEN Upd(Ev.c + 1, Cur) ELSE Upd(Ev.c + 1, WCStep(Cur, Ev.type, Ev.n, Ev.dl, Ev.m, Ev.err, Ev.tx)))
 TWP == Is("WP") /\ (IF Wild THEN Upd(Ev.c + 1, Cur) ELSE Upd(Ev.c + 1, WPStep(Cur, Ev.pm, Ev.err, Ev.tx)))
+(* Close() closes the transport; it neither writes nor touches the buffer pool (C20) *)
+TXC == Is("XC") /\ Ev.tx = << >> /\ Upd(Ev.c + 1, Cur)
 TSD == Is("SD") /\ Ev.tx = << >> /\ IsNil(Ev.err) /\ Upd(Ev.c + 1, [Cur EXCEPT !.dl = Ev.dl])
 TEC == Is("EC") /\ Ev.tx = << >> /\ Upd(Ev.c + 1, [Cur EXCEPT !.wcomp = Ev.on])
 TSL == /\ Is("SL") /\ Ev.tx = << >>
@@ -50,7 +52,7 @@ TEnd == /\ Is("END") /\ (cs[Ev.c + 1].err = "fatal" \/ cs[Ev.c + 1].wild)      \
         /\ UNCHANGED << cs, pms >> /\ Adv
 
 TInit == l = 1 /\ cs = << >> /\ pms = << >>
-TNext == TReset \/ TEnd \/ TPMNew \/ TNW \/ TWR \/ TCL \/ TWM \/ TWC \/ TWP \/ TSD \/ TEC \/ TSL
+TNext == TReset \/ TEnd \/ TPMNew \/ TNW \/ TWR \/ TCL \/ TWM \/ TWC \/ TWP \/ TSD \/ TXC \/ TEC \/ TSL
 TSpec == TInit /\ [][TNext]_tvars
 
 Accepted ==
